@@ -1,3 +1,814 @@
 package main
 
-func cmdCheck(args []string) int { return 2 }
+// check.go: the registered entry point. `gosymx check Cxx --tier quick|thorough`
+// plans the work items of a property, explores them on all cores, replays
+// counterexamples and path witnesses against the real build, writes
+// /verif/evidence/Cxx.json and prints the verdict lines.
+
+import (
+	"bufio"
+	"crypto/sha1"
+	"encoding/json"
+	"flag"
+	"fmt"
+	"os"
+	"os/exec"
+	"path/filepath"
+	"runtime"
+	"sort"
+	"strconv"
+	"strings"
+	"sync"
+	"time"
+
+	"gosymx/internal/sx"
+)
+
+type planHarness struct {
+	Name     string           `json:"name"`
+	Quick    map[string][]int `json:"quick"`
+	Thorough map[string][]int `json:"thorough"`
+	// Vary lists parameter names whose values are listed per index ("len" with
+	// count parameter "ntok" expands to len0..len{ntok-1}).
+	PerIndex     map[string]string `json:"per_index"`
+	MaxPaths     int               `json:"maxpaths"`
+	MaxSteps     int64             `json:"maxsteps"`
+	Witness      int               `json:"witness"`
+	RequireReach []string          `json:"require_reach"`
+	Note         string            `json:"note"`
+	Sorted       bool              `json:"sorted_index"` // per-index values need not be enumerated in every order
+}
+
+type plan struct {
+	Property    string        `json:"property"`
+	Harnesses   []planHarness `json:"harnesses"`
+	Assumptions []string      `json:"assumptions"`
+	Bounds      string        `json:"bounds"`
+}
+
+type knownFinding struct {
+	Status    string `json:"status"` // open | fixed
+	Property  string `json:"property"`
+	Predicate string `json:"predicate"`
+	What      string `json:"what"`
+	Witness   string `json:"witness"`
+	Commit    string `json:"commit"`
+}
+
+type replayRec struct {
+	Property string            `json:"property"`
+	Harness  string            `json:"harness"`
+	Shape    map[string]int    `json:"shape"`
+	Known    []string          `json:"known"`
+	Kind     string            `json:"kind"` // assert panic exit budget witness
+	Msg      string            `json:"msg"`
+	Values   []sx.ReplayValue  `json:"values"`
+	Obs      []string          `json:"expect_obs"`
+	Reach    []string          `json:"expect_reach"`
+}
+
+type replayResult struct {
+	File   string   `json:"file"`
+	Status string   `json:"status"` // ok | failed | panic | assume | hang | exit
+	Failed []string `json:"failed"`
+	Panic  string   `json:"panic"`
+	Obs    []string `json:"obs"`
+	Reach  []string `json:"reach"`
+}
+
+func verifDir() string { return envOr("VERIF_DIR", "/verif") }
+
+func expandShapes(h planHarness, tier string) []map[string]int {
+	params := h.Quick
+	if tier == "thorough" && h.Thorough != nil {
+		params = h.Thorough
+	}
+	names := make([]string, 0, len(params))
+	for k := range params {
+		names = append(names, k)
+	}
+	sort.Strings(names)
+	// scalar parameters first (those not per-index)
+	out := []map[string]int{{}}
+	for _, n := range names {
+		if _, per := h.PerIndex[n]; per {
+			continue
+		}
+		var next []map[string]int
+		for _, m := range out {
+			for _, v := range params[n] {
+				c := map[string]int{}
+				for k, x := range m {
+					c[k] = x
+				}
+				c[n] = v
+				next = append(next, c)
+			}
+		}
+		out = next
+	}
+	for _, n := range names {
+		cnt, per := h.PerIndex[n]
+		if !per {
+			continue
+		}
+		var next []map[string]int
+		for _, m := range out {
+			k := m[cnt]
+			cur := []map[string]int{m}
+			for i := 0; i < k; i++ {
+				var nn []map[string]int
+				for _, mm := range cur {
+					for _, v := range params[n] {
+						c := map[string]int{}
+						for kk, x := range mm {
+							c[kk] = x
+						}
+						c[n+strconv.Itoa(i)] = v
+						nn = append(nn, c)
+					}
+				}
+				cur = nn
+			}
+			next = append(next, cur...)
+		}
+		out = next
+	}
+	return out
+}
+
+func shapeString(m map[string]int) string {
+	ks := make([]string, 0, len(m))
+	for k := range m {
+		ks = append(ks, k)
+	}
+	sort.Strings(ks)
+	var sb strings.Builder
+	for i, k := range ks {
+		if i > 0 {
+			sb.WriteByte(',')
+		}
+		fmt.Fprintf(&sb, "%s=%d", k, m[k])
+	}
+	return sb.String()
+}
+
+func loadKnown(prop string) (open []knownFinding, fixed []knownFinding) {
+	f, err := os.Open(filepath.Join(verifDir(), "known_findings.jsonl"))
+	if err != nil {
+		return
+	}
+	defer f.Close()
+	sc := bufio.NewScanner(f)
+	sc.Buffer(make([]byte, 1<<20), 1<<20)
+	for sc.Scan() {
+		line := strings.TrimSpace(sc.Text())
+		if line == "" || strings.HasPrefix(line, "#") {
+			continue
+		}
+		var k knownFinding
+		if json.Unmarshal([]byte(line), &k) != nil || k.Property != prop {
+			continue
+		}
+		if k.Status == "open" {
+			open = append(open, k)
+		} else {
+			fixed = append(fixed, k)
+		}
+	}
+	return
+}
+
+// runReplays runs the native replay test over the given files.
+func runReplays(repo string, files []string, workDir string) (map[string]replayResult, string, error) {
+	res := map[string]replayResult{}
+	if len(files) == 0 {
+		return res, "", nil
+	}
+	hdir := filepath.Join(verifDir(), "harness")
+	overlay := map[string]string{}
+	hs, _ := filepath.Glob(filepath.Join(hdir, "*.go"))
+	for _, f := range hs {
+		overlay[filepath.Join(repo, "zz_verif_"+filepath.Base(f))] = f
+	}
+	ob, _ := json.Marshal(map[string]interface{}{"Replace": overlay})
+	ovPath := filepath.Join(workDir, "overlay.json")
+	os.WriteFile(ovPath, ob, 0o644)
+	listPath := filepath.Join(workDir, "replay_list.txt")
+	os.WriteFile(listPath, []byte(strings.Join(files, "\n")+"\n"), 0o644)
+	outPath := filepath.Join(workDir, "replay_out.jsonl")
+	os.Remove(outPath)
+	var log strings.Builder
+	// the replay test exits early on a hang or os.Exit; loop until every file has a result
+	for attempt := 0; attempt < len(files)+2; attempt++ {
+		cmd := exec.Command("go", "test", "-tags", "verif", "-vet=off", "-count=1", "-overlay", ovPath, "-run", "^TestVerifReplay$", "-timeout", "20m", ".")
+		cmd.Dir = repo
+		cmd.Env = append(os.Environ(), "GOFLAGS=-mod=mod", "GOPROXY=off", "GOSUMDB=off", "GOTOOLCHAIN=local",
+			"VERIF_REPLAY_LIST="+listPath, "VERIF_REPLAY_OUT="+outPath)
+		out, err := cmd.CombinedOutput()
+		log.Write(out)
+		_ = err
+		// read results
+		done := map[string]bool{}
+		if f, e := os.Open(outPath); e == nil {
+			sc := bufio.NewScanner(f)
+			sc.Buffer(make([]byte, 1<<22), 1<<22)
+			for sc.Scan() {
+				var r replayResult
+				if json.Unmarshal(sc.Bytes(), &r) == nil && r.File != "" {
+					res[r.File] = r
+					done[r.File] = true
+				}
+			}
+			f.Close()
+		}
+		var rest []string
+		for _, f := range files {
+			if _, ok := res[f]; !ok {
+				rest = append(rest, f)
+			}
+		}
+		if len(rest) == 0 {
+			break
+		}
+		if len(done) == 0 && attempt > 0 && !strings.Contains(log.String(), "VERIF-REPLAY-START") {
+			return res, log.String(), fmt.Errorf("native replay build/run failed")
+		}
+		os.WriteFile(listPath, []byte(strings.Join(rest, "\n")+"\n"), 0o644)
+	}
+	return res, log.String(), nil
+}
+
+func sameStrings(a, b []string) bool {
+	if len(a) != len(b) {
+		return false
+	}
+	for i := range a {
+		if a[i] != b[i] {
+			return false
+		}
+	}
+	return true
+}
+
+func cmdCheck(args []string) int {
+	fs := flag.NewFlagSet("check", flag.ExitOnError)
+	tier := fs.String("tier", envOr("VERIF_TIER", "quick"), "quick|thorough")
+	replayFile := fs.String("replay", "", "replay one counterexample file natively")
+	workers := fs.Int("workers", runtime.NumCPU(), "parallel workers")
+	only := fs.String("only", "", "run only this harness")
+	noReplay := fs.Bool("noreplay", false, "skip native replays (development)")
+	var prop string
+	if len(args) > 0 && !strings.HasPrefix(args[0], "-") {
+		prop = args[0]
+		args = args[1:]
+	}
+	fs.Parse(args)
+	if prop == "" {
+		fmt.Fprintln(os.Stderr, "usage: gosymx check Cxx [--tier quick|thorough] [--replay file]")
+		return 2
+	}
+	seed, _ := strconv.Atoi(envOr("VERIF_SEED", "0"))
+	repo := envOr("VERIF_REPO", "/repo")
+	vd := verifDir()
+	workDir := filepath.Join(vd, ".work", fmt.Sprintf("%s-%d", prop, os.Getpid()))
+	os.MkdirAll(workDir, 0o755)
+	defer os.RemoveAll(workDir)
+	start := time.Now()
+
+	if *replayFile != "" {
+		abs, _ := filepath.Abs(*replayFile)
+		rr, log, err := runReplays(repo, []string{abs}, workDir)
+		if err != nil {
+			fmt.Println(log)
+			fmt.Println("INCONCLUSIVE", err)
+			return 2
+		}
+		r := rr[abs]
+		b, _ := json.Marshal(r)
+		fmt.Println(string(b))
+		if r.Status == "failed" || r.Status == "panic" || r.Status == "hang" || r.Status == "exit" {
+			fmt.Printf("VIOLATION property=%s replay=%s\n", prop, abs)
+			return 1
+		}
+		return 0
+	}
+
+	var pl plan
+	pb, err := os.ReadFile(filepath.Join(vd, "plans", prop+".json"))
+	if err != nil {
+		fmt.Println("INCONCLUSIVE no plan:", err)
+		return 2
+	}
+	if err := json.Unmarshal(pb, &pl); err != nil {
+		fmt.Println("INCONCLUSIVE bad plan:", err)
+		return 2
+	}
+	openKF, _ := loadKnown(prop)
+	var knownNames []string
+	for _, k := range openKF {
+		knownNames = append(knownNames, k.Predicate)
+	}
+
+	loadStart := time.Now()
+	prog, err := sx.Load(repo, filepath.Join(vd, "harness"))
+	if err != nil {
+		fmt.Println("INCONCLUSIVE cannot load/type-check the tree with the harnesses:", err)
+		writeEvidence(prop, *tier, seed, map[string]interface{}{"explanation": "load failed: " + err.Error(), "evaluations": 0, "distinct_nontrivial": 0}, nil, time.Since(start).Seconds(), 0)
+		return 2
+	}
+	loadTime := time.Since(loadStart)
+
+	var items []sx.Item
+	reqReach := map[string][]string{}
+	for _, h := range pl.Harnesses {
+		if *only != "" && h.Name != *only {
+			continue
+		}
+		reqReach[h.Name] = h.RequireReach
+		for _, sh := range expandShapes(h, *tier) {
+			mp := h.MaxPaths
+			if mp == 0 {
+				mp = 200000
+			}
+			items = append(items, sx.Item{Harness: h.Name, Shape: sh, MaxPaths: mp, Known: knownNames, WitnessN: h.Witness, MaxSteps: h.MaxSteps})
+		}
+	}
+	nw := *workers
+	if nw > len(items) {
+		nw = len(items)
+	}
+	if nw < 1 {
+		nw = 1
+	}
+	obligDir := ""
+	if *tier == "thorough" || os.Getenv("VERIF_CROSS") != "" {
+		obligDir = filepath.Join(workDir, "oblig")
+		os.MkdirAll(obligDir, 0o755)
+	}
+	results := make([]sx.ItemResult, len(items))
+	var wg sync.WaitGroup
+	ch := make(chan int)
+	var fatalMu sync.Mutex
+	var fatals []string
+	for i := 0; i < nw; i++ {
+		wg.Add(1)
+		go func() {
+			defer wg.Done()
+			w, err := sx.NewWorker(prog)
+			if err != nil {
+				fatalMu.Lock()
+				fatals = append(fatals, err.Error())
+				fatalMu.Unlock()
+				for range ch {
+				}
+				return
+			}
+			w.ObligDir = obligDir
+			defer w.Close()
+			for idx := range ch {
+				results[idx] = w.Run(items[idx])
+			}
+		}()
+	}
+	for i := range items {
+		ch <- i
+	}
+	close(ch)
+	wg.Wait()
+
+	// ---- aggregate ----
+	var tot sx.PathStats
+	inconclusive := map[string]int{}
+	cuts := map[string]int{}
+	reach := map[string]map[string]int{}
+	funcs := map[string]bool{}
+	stubs := map[string]int{}
+	var solverQ int
+	var solverTime time.Duration
+	var cexFiles []string
+	cexMeta := map[string]replayRec{}
+	var witFiles []string
+	witMeta := map[string]replayRec{}
+	kfHits := map[string]int{}
+	terms := 0
+	for _, f := range fatals {
+		inconclusive["worker: "+f]++
+	}
+	os.MkdirAll(filepath.Join(vd, "replays", prop), 0o755)
+	witDir := filepath.Join(workDir, "wit")
+	os.MkdirAll(witDir, 0o755)
+	for _, r := range results {
+		if r.Item.Harness == "" {
+			continue
+		}
+		if r.Fatal != "" {
+			inconclusive[r.Item.Harness+": "+r.Fatal]++
+		}
+		s := r.Stats
+		tot.Paths += s.Paths
+		tot.Infeasible += s.Infeasible
+		tot.Forks += s.Forks
+		tot.Steps += s.Steps
+		tot.ObligationsQ += s.ObligationsQ
+		tot.ObligationsU += s.ObligationsU
+		tot.ObligationsC += s.ObligationsC
+		tot.ObligationsSat += s.ObligationsSat
+		tot.ObligUnknown += s.ObligUnknown
+		tot.FeasQ += s.FeasQ
+		tot.FeasUnknown += s.FeasUnknown
+		tot.BudgetOverruns += s.BudgetOverruns
+		for k, v := range s.Unsupported {
+			inconclusive[r.Item.Harness+": "+k] += v
+		}
+		for k, v := range s.Cuts {
+			cuts[r.Item.Harness+": "+k] += v
+		}
+		for _, e := range r.SolverErrs {
+			inconclusive["solver: "+e]++
+		}
+		if reach[r.Item.Harness] == nil {
+			reach[r.Item.Harness] = map[string]int{}
+		}
+		for k, v := range r.Reach {
+			reach[r.Item.Harness][k] += v
+		}
+		for _, f := range r.Funcs {
+			funcs[f] = true
+		}
+		for k, v := range r.Stubs {
+			stubs[k] += v
+		}
+		for k, v := range r.KnownHits {
+			kfHits[k] += v
+		}
+		solverQ += r.SolverQ
+		solverTime += r.SolverTime
+		if r.Terms > terms {
+			terms = r.Terms
+		}
+		for _, c := range r.Cexs {
+			rec := replayRec{Property: prop, Harness: r.Item.Harness, Shape: r.Item.Shape, Known: r.Item.Known, Kind: c.Kind, Msg: c.Msg, Values: c.Values, Obs: c.Obs}
+			b, _ := json.MarshalIndent(rec, "", " ")
+			h := sha1.Sum(b)
+			name := filepath.Join(vd, "replays", prop, fmt.Sprintf("%s_%x.json", r.Item.Harness, h[:6]))
+			os.WriteFile(name, b, 0o644)
+			cexFiles = append(cexFiles, name)
+			cexMeta[name] = rec
+		}
+		for i, wt := range r.Witnesses {
+			rec := replayRec{Property: prop, Harness: r.Item.Harness, Shape: r.Item.Shape, Known: r.Item.Known, Kind: "witness", Values: wt.Values, Obs: wt.Obs, Reach: wt.Reach}
+			b, _ := json.Marshal(rec)
+			name := filepath.Join(witDir, fmt.Sprintf("%s_%s_%d.json", r.Item.Harness, shapeString(r.Item.Shape), i))
+			os.WriteFile(name, b, 0o644)
+			witFiles = append(witFiles, name)
+			witMeta[name] = rec
+		}
+	}
+	// cap the number of witnesses replayed (seed selects the sample)
+	maxWit := 200
+	if *tier == "thorough" {
+		maxWit = 1000
+	}
+	if len(witFiles) > maxWit {
+		sort.Strings(witFiles)
+		step := len(witFiles) / maxWit
+		var sel []string
+		for i := seed % (step + 1); i < len(witFiles) && len(sel) < maxWit; i += step + 1 {
+			sel = append(sel, witFiles[i])
+		}
+		witFiles = sel
+	}
+	if len(cexFiles) > 40 {
+		cexFiles = cexFiles[:40]
+	}
+
+	// vacuity
+	for h, labels := range reqReach {
+		for _, l := range labels {
+			if reach[h][l] == 0 {
+				inconclusive[fmt.Sprintf("vacuity: %s never reached label %q", h, l)]++
+			}
+		}
+	}
+
+	// ---- native replays ----
+	violations := 0
+	var violationLines []string
+	var knownLines []string
+	tracesValidated := 0
+	replayLog := ""
+	if !*noReplay {
+		var kfFiles []string
+		for _, k := range openKF {
+			if k.Witness != "" {
+				kfFiles = append(kfFiles, filepath.Join(vd, k.Witness))
+			}
+		}
+		all := append(append(append([]string{}, cexFiles...), witFiles...), kfFiles...)
+		rr, log, err := runReplays(repo, all, workDir)
+		replayLog = log
+		if err != nil {
+			inconclusive["native replay: "+err.Error()]++
+		}
+		for _, f := range cexFiles {
+			r, ok := rr[f]
+			m := cexMeta[f]
+			switch {
+			case !ok:
+				inconclusive["replay produced no result for "+filepath.Base(f)]++
+			case r.Status == "failed" || r.Status == "panic" || r.Status == "hang" || r.Status == "exit":
+				reproduced := false
+				switch m.Kind {
+				case "assert":
+					for _, x := range r.Failed {
+						if x == m.Msg {
+							reproduced = true
+						}
+					}
+					if r.Status == "panic" || r.Status == "hang" {
+						reproduced = true
+					}
+				default:
+					reproduced = true
+				}
+				if reproduced {
+					violations++
+					violationLines = append(violationLines, fmt.Sprintf("VIOLATION property=%s replay=%s", prop, f))
+					fmt.Printf("  counterexample %s: %s [%s] reproduced natively (%s %v %s)\n", filepath.Base(f), m.Msg, m.Kind, r.Status, r.Failed, r.Panic)
+				} else {
+					inconclusive[fmt.Sprintf("SPURIOUS counterexample (native failed differently) %s: %s", filepath.Base(f), m.Msg)]++
+				}
+			default:
+				inconclusive[fmt.Sprintf("SPURIOUS counterexample (not reproduced natively: %s) %s: %s", r.Status, filepath.Base(f), m.Msg)]++
+				os.Remove(f)
+			}
+		}
+		for _, f := range witFiles {
+			r, ok := rr[f]
+			m := witMeta[f]
+			if !ok {
+				inconclusive["witness replay produced no result"]++
+				continue
+			}
+			if r.Status == "ok" && sameStrings(r.Obs, m.Obs) && sameStrings(r.Reach, m.Reach) {
+				tracesValidated++
+			} else {
+				b, _ := json.Marshal(m)
+				keep := filepath.Join(vd, "replays", prop, "MISMATCH_"+filepath.Base(f))
+				os.WriteFile(keep, b, 0o644)
+				inconclusive[fmt.Sprintf("translator validation: native run of path witness disagrees (%s; native obs %v reach %v, predicted obs %v reach %v) file %s", r.Status, r.Obs, r.Reach, m.Obs, m.Reach, keep)]++
+			}
+		}
+		for _, k := range openKF {
+			if k.Witness == "" {
+				continue
+			}
+			f := filepath.Join(vd, k.Witness)
+			r := rr[f]
+			if r.Status == "failed" || r.Status == "panic" || r.Status == "hang" || r.Status == "exit" {
+				knownLines = append(knownLines, fmt.Sprintf("KNOWN-FINDING: property=%s %s", prop, k.What))
+			}
+		}
+	} else if len(cexFiles) > 0 {
+		for _, f := range cexFiles {
+			inconclusive["unreplayed counterexample "+f+": "+cexMeta[f].Msg]++
+		}
+	}
+	// a listed predicate that no harness consults would silently suppress nothing; flag it
+	for _, k := range openKF {
+		if kfHits[k.Predicate] == 0 {
+			inconclusive["known-finding predicate not consulted by any harness: "+k.Predicate]++
+		}
+	}
+
+	// ---- cross-solver re-decision of obligation queries ----
+	cross := map[string]interface{}{}
+	if obligDir != "" {
+		cross = crossCheck(obligDir, inconclusive)
+	}
+
+	// ---- evidence ----
+	var funcList, flagsFuncs, stdFuncs []string
+	for f := range funcs {
+		funcList = append(funcList, f)
+	}
+	sort.Strings(funcList)
+	for _, f := range funcList {
+		if strings.Contains(f, "jessevdk/go-flags") {
+			if !strings.Contains(f, ".H_") && !strings.Contains(f, ".ref") && !strings.Contains(f, "go-flags.V)") {
+				flagsFuncs = append(flagsFuncs, strings.ReplaceAll(f, "github.com/jessevdk/go-flags", "flags"))
+			}
+		} else {
+			stdFuncs = append(stdFuncs, f)
+		}
+	}
+	var stubList []string
+	for k := range stubs {
+		if !strings.Contains(k, "go-flags.V)") {
+			stubList = append(stubList, k)
+		}
+	}
+	sort.Strings(stubList)
+	var samples []interface{}
+	for _, f := range witFiles {
+		if len(samples) >= 5 {
+			break
+		}
+		m := witMeta[f]
+		samples = append(samples, map[string]interface{}{"harness": m.Harness, "shape": m.Shape, "inputs": renderValues(m.Values), "observed": m.Obs, "reach": m.Reach})
+	}
+	for _, f := range cexFiles {
+		if len(samples) >= 8 {
+			break
+		}
+		m := cexMeta[f]
+		samples = append(samples, map[string]interface{}{"harness": m.Harness, "shape": m.Shape, "inputs": renderValues(m.Values), "violates": m.Msg})
+	}
+	if len(samples) == 0 {
+		for _, it := range items {
+			samples = append(samples, map[string]interface{}{"harness": it.Harness, "shape": it.Shape, "note": "all byte contents symbolic; no witness sampled"})
+			if len(samples) >= 3 {
+				break
+			}
+		}
+	}
+	var incList []string
+	for k, v := range inconclusive {
+		incList = append(incList, fmt.Sprintf("%s (x%d)", k, v))
+	}
+	sort.Strings(incList)
+	var cutList []string
+	for k, v := range cuts {
+		cutList = append(cutList, fmt.Sprintf("%s (x%d)", k, v))
+	}
+	sort.Strings(cutList)
+	shapesRun := map[string][]string{}
+	for _, it := range items {
+		if len(shapesRun[it.Harness]) < 400 {
+			shapesRun[it.Harness] = append(shapesRun[it.Harness], shapeString(it.Shape))
+		}
+	}
+	cov := map[string]interface{}{
+		"states":                        tot.Forks + tot.Paths,
+		"transitions":                   tot.Steps,
+		"traces_validated_against_impl": tracesValidated,
+		"samples":                       samples,
+		"paths":                         tot.Paths,
+		"infeasible_paths_pruned":       tot.Infeasible,
+		"work_items":                    len(items),
+		"feasibility_queries":           tot.FeasQ,
+		"feasibility_unknown":           tot.FeasUnknown,
+		"obligation_queries":            tot.ObligationsQ,
+		"obligations_unsat":             tot.ObligationsU,
+		"obligations_concrete_true":     tot.ObligationsC,
+		"obligations_sat":               tot.ObligationsSat,
+		"obligations_unknown":           tot.ObligUnknown,
+		"solver_queries":                solverQ,
+		"solver_time_s":                 solverTime.Seconds(),
+		"solver":                        "z3 4.8.12 (deciding); see cross_solver",
+		"cross_solver":                  cross,
+		"functions_encoded_goflags":     flagsFuncs,
+		"functions_encoded_stdlib":      stdFuncs,
+		"stubs":                         stubList,
+		"bounds":                        pl.Bounds,
+		"shapes_run":                    shapesRun,
+		"reach_labels":                  reach,
+		"inconclusive":                  incList,
+		"cuts":                          cutList,
+		"known_findings_open":           knownNames,
+		"known_findings_reported":       knownLines,
+		"load_time_s":                   loadTime.Seconds(),
+		"counterexamples_reproduced":    violations,
+		"exhaustive":                    false,
+		"explanation":                   "bounded symbolic execution of the SSA of the real functions; every byte of every symbolic string is a solver variable; verdict per shape is the solver's",
+	}
+	writeEvidence(prop, *tier, seed, cov, pl.Assumptions, time.Since(start).Seconds(), violations)
+
+	fmt.Printf("property=%s tier=%s items=%d paths=%d obligations(query/unsat/concrete)=%d/%d/%d feas_queries=%d solver=%.1fs traces_validated=%d wall=%.1fs\n",
+		prop, *tier, len(items), tot.Paths, tot.ObligationsQ, tot.ObligationsU, tot.ObligationsC, tot.FeasQ, solverTime.Seconds(), tracesValidated, time.Since(start).Seconds())
+	for _, l := range knownLines {
+		fmt.Println(l)
+	}
+	if violations > 0 {
+		for _, l := range violationLines {
+			fmt.Println(l)
+		}
+		return 1
+	}
+	if len(inconclusive) > 0 {
+		for _, l := range incList {
+			fmt.Println("INCONCLUSIVE", l)
+		}
+		if os.Getenv("VERIF_VERBOSE") != "" {
+			fmt.Println(replayLog)
+		}
+		return 2
+	}
+	fmt.Printf("HELD property=%s within the stated bounds\n", prop)
+	return 0
+}
+
+func renderValues(vs []sx.ReplayValue) []string {
+	var out []string
+	for _, v := range vs {
+		switch v.Kind {
+		case "string":
+			b := make([]byte, len(v.Bytes))
+			for i, x := range v.Bytes {
+				b[i] = byte(x)
+			}
+			out = append(out, fmt.Sprintf("string %q", string(b)))
+		default:
+			out = append(out, fmt.Sprintf("%s %d", v.Kind, v.Int))
+		}
+	}
+	return out
+}
+
+func writeEvidence(prop, tier string, seed int, cov map[string]interface{}, assumptions []string, wall float64, violations int) {
+	ev := map[string]interface{}{
+		"property_id": prop,
+		"tier":        tier,
+		"seed":        seed,
+		"level":       "model_checking",
+		"coverage":    cov,
+		"assumptions": assumptions,
+		"wall_s":      wall,
+		"violations":  violations,
+	}
+	if assumptions == nil {
+		ev["assumptions"] = []string{}
+	}
+	b, _ := json.MarshalIndent(ev, "", " ")
+	dir := filepath.Join(verifDir(), "evidence")
+	os.MkdirAll(dir, 0o755)
+	os.WriteFile(filepath.Join(dir, prop+".json"), b, 0o644)
+}
+
+// crossCheck re-decides the logged obligation queries with z3 5.1.0 and cvc5.
+func crossCheck(dir string, inconclusive map[string]int) map[string]interface{} {
+	files, _ := filepath.Glob(filepath.Join(dir, "*.smt2"))
+	sort.Strings(files)
+	maxN := 300
+	if len(files) > maxN {
+		step := len(files) / maxN
+		var sel []string
+		for i := 0; i < len(files); i += step {
+			sel = append(sel, files[i])
+		}
+		files = sel
+	}
+	type sv struct {
+		name string
+		args []string
+	}
+	solvers := []sv{{"z3-new", []string{"-T:60"}}, {"cvc5", []string{"--tlimit=60000"}}}
+	out := map[string]interface{}{"queries_rechecked": len(files)}
+	var mu sync.Mutex
+	for _, s := range solvers {
+		if _, err := exec.LookPath(s.name); err != nil {
+			out[s.name] = "not available"
+			continue
+		}
+		agree, disagree, unknown := 0, 0, 0
+		var wg sync.WaitGroup
+		sem := make(chan struct{}, runtime.NumCPU())
+		for _, f := range files {
+			wg.Add(1)
+			sem <- struct{}{}
+			go func(f string) {
+				defer wg.Done()
+				defer func() { <-sem }()
+				o, _ := exec.Command(s.name, append(s.args, f)...).CombinedOutput()
+				txt := strings.TrimSpace(string(o))
+				mu.Lock()
+				defer mu.Unlock()
+				want := "unsat"
+				if strings.HasSuffix(f, "_sat.smt2") {
+					want = "sat"
+				} else if strings.HasSuffix(f, "_unknown.smt2") {
+					want = ""
+				}
+				first := strings.SplitN(txt, "\n", 2)[0]
+				switch {
+				case first == "sat" || first == "unsat":
+					if want == "" || first == want {
+						agree++
+					} else {
+						disagree++
+						inconclusive["cross-solver "+s.name+" DISAGREES on "+filepath.Base(f)+": "+first+" vs "+want]++
+					}
+				case strings.Contains(txt, "error"):
+					disagree++
+					inconclusive["cross-solver "+s.name+" error on "+filepath.Base(f)+": "+txt]++
+				default:
+					unknown++
+				}
+			}(f)
+		}
+		wg.Wait()
+		out[s.name] = map[string]int{"agree": agree, "disagree_or_error": disagree, "unknown": unknown}
+	}
+	return out
+}
